@@ -365,7 +365,7 @@ func checkC03(w *Worker) {
 	}
 	// every special scenario whose amounts are exact (harness/specials.go): all foods and the elements cal and fat
 	var c03Specials []specialScenario
-	for _, sc := range specialScenarios() {
+	for _, sc := range specialsFor(w.Tier) {
 		if sc.Exact && sc.Name != "repeated-heading-in-the-book" {
 			c03Specials = append(c03Specials, sc)
 		}
